@@ -439,9 +439,9 @@ def seq_issues(trees):
 
 
 ALL_KINDS = ["assign", "if", "while", "return", "args", "aug", "setitem", "augitem", "augitem",
-             "augitem2", "borrowarg", "result", "tuple", "assign", "augsel", "borrow3"]
+             "augitem2", "borrowarg", "result", "tuple", "assign", "augsel", "borrow3", "unpack_sub"]
 #: statements whose subject is an array element place (C19)
-PLACE_KINDS = ["setitem", "augitem", "augitem2", "borrowarg", "augsel", "augsel", "borrow3", "borrow3"]
+PLACE_KINDS = ["setitem", "augitem", "augitem2", "borrowarg", "augsel", "augsel", "borrow3", "borrow3", "unpack_sub", "unpack_sub"]
 
 
 def _one(draw, allow_known=False, max_depth=4, prefix="", allow_boom=True, kinds=None, classical=False):
@@ -548,6 +548,17 @@ def _one(draw, allow_known=False, max_depth=4, prefix="", allow_boom=True, kinds
                 iss = seq_issues(ts)
                 if has_effect(i1) and has_effect(i2):
                     iss.add("nested_subscript_order")
+            elif kind == "unpack_sub":
+                # unpacking assignment with a subscript target whose index variable is re-bound by another
+                # target of the same statement: targets are assigned left to right, each index read when
+                # its target is reached
+                i0, j = draw(st.integers(0, 2)), draw(st.integers(0, 2))
+                ts = g.seq([lambda n: ("ti", g.nk(), j), lambda n: g.int_tree(1, nl=True)], False)
+                first = draw(st.booleans())
+                tg = f"iu{si}, xs[iu{si}]" if first else f"xs[iu{si}], iu{si}"
+                rhs = f"{render(ts[0])}, {render(ts[1])}" if first else f"{render(ts[1])}, {render(ts[0])}"
+                st_lines = [f"iu{si} = {i0}", f"{tg} = {rhs}", 'result("xs", xs)', f'result("iu", iu{si})']
+                iss = seq_issues(ts if first else [ts[1], ts[0]])
             elif kind == "result":
                 ts = [g.int_tree()]
                 st_lines = [f'result("v", {render(ts[0])})']
